@@ -881,6 +881,30 @@ pub fn trace(case: &Case, instr: &Instr, out: &Outcome) -> Vec<Value> {
             }
         }
     }
+    // Radau IIA nodes: the three evaluations of every Newton iteration (reported by the hook right after them) lie at
+    // x + c1 h, x + c2 h, x + h of one and the same (x, h): (t2 - t1) / (t3 - t2) = (c2 - c1) / (1 - c2), whatever x and h
+    let mut nodes_seen = 0usize;
+    let mut nodes_bad = 0usize;
+    if case.method == "RADAU" {
+        let s6 = 6.0f64.sqrt();
+        let want = (s6 / 5.0) / ((6.0 - s6) / 10.0);
+        let mut last3: Vec<f64> = Vec::new();
+        for e in log.iter() {
+            match e {
+                Ev::Ode { t, injac: false, .. } => { last3.push(*t); if last3.len() > 3 { last3.remove(0); } }
+                Ev::Hook { tag, .. } if matches!(*tag, "nw_cont" | "nw_conv" | "nw_div" | "nw_slow") => {
+                    if last3.len() == 3 && last3.iter().all(|v| v.is_finite()) && last3[2] != last3[1] {
+                        nodes_seen += 1;
+                        let got = (last3[1] - last3[0]) / (last3[2] - last3[1]);
+                        let slack = 1e-9 + 64.0 * f64::EPSILON * last3.iter().fold(0.0f64, |a, b| a.max(b.abs())) / (last3[2] - last3[1]).abs();
+                        if !((got - want).abs() <= slack * want) { nodes_bad += 1; }
+                    }
+                }
+                _ => {}
+            }
+        }
+    }
+    let nodes_fact = json!({"has": nodes_seen > 0, "ok": nodes_bad == 0, "n": nodes_seen});
     // first_step fact: with first_step given, the second stepper evaluation is at x0 + c2*|h0|*dir
     // the clause only speaks about a first_step not larger than max_step or the span
     let script_at0 = case.script.iter().any(|s| s.k == 0);
@@ -901,10 +925,10 @@ pub fn trace(case: &Case, instr: &Instr, out: &Outcome) -> Vec<Value> {
             let unsolved = has_reference_mass(case) && case.max_steps.is_none() && mass_reference(case, case.xend).is_some();
             lines.push(json!({"e": "abort", "id": case.id, "why": why, "msg": msg, "mass_unsolved": unsolved}));
         }
-        Outcome::Err(name) => lines.push(json!({"e": "ret", "id": case.id, "kind": "err", "status": name, "fs": fs_fact})),
+        Outcome::Err(name) => lines.push(json!({"e": "ret", "id": case.id, "kind": "err", "status": name, "fs": fs_fact, "nodes": nodes_fact})),
         Outcome::Low { status, h: _, nfev, njev, nlu, nstep, naccpt, nrejct } => {
             lines.push(json!({"e": "ret", "id": case.id, "kind": "low", "status": status, "nfev": nfev, "njev": njev, "nlu": nlu,
-                              "nstep": nstep, "naccpt": naccpt, "nrejct": nrejct, "fs": fs_fact, "oded": oded, "cbd": cbd}));
+                              "nstep": nstep, "naccpt": naccpt, "nrejct": nrejct, "fs": fs_fact, "nodes": nodes_fact, "oded": oded, "cbd": cbd}));
         }
         Outcome::Sol(s) => {
             // were there stepper evaluations closer than 1.2e-12 to each other? (steps at the scale of the
@@ -913,7 +937,7 @@ pub fn trace(case: &Case, instr: &Instr, out: &Outcome) -> Vec<Value> {
             ts.sort_by(|a, b| a.partial_cmp(b).unwrap());
             ts.dedup();
             let tiny = ts.windows(2).any(|w| (w[1] - w[0]).abs() <= 1.2e-12);
-            let mut r = ret_line(case, s, &rk, fs_fact, dir, tiny);
+            let mut r = ret_line(case, s, &rk, fs_fact, nodes_fact, dir, tiny);
             r["oded"] = json!(oded);
             r["cbd"] = json!(cbd);
             lines.push(r);
@@ -922,7 +946,7 @@ pub fn trace(case: &Case, instr: &Instr, out: &Outcome) -> Vec<Value> {
     lines
 }
 
-fn ret_line(case: &Case, s: &Solution, rk: &Ranker, fs_fact: Value, dir: f64, tiny: bool) -> Value {
+fn ret_line(case: &Case, s: &Solution, rk: &Ranker, fs_fact: Value, nodes_fact: Value, dir: f64, tiny: bool) -> Value {
     let tj = |t: f64| json!({"r": rk.rank(t), "b": tok(t)});
     let n = case.y0.len();
     let finite = s.y.iter().all(|v| v.iter().all(|x| x.is_finite())) && s.t.iter().all(|x| x.is_finite());
@@ -1145,6 +1169,6 @@ fn ret_line(case: &Case, s: &Solution, rk: &Ranker, fs_fact: Value, dir: f64, ti
         "span": span, "hasspan": spanv.is_some(),
         "sol": {"inside_ok": all_inside_ok, "outside_oor": outside_oor, "at_t_ok": sol_at_t_ok, "at_t_fail": sol_at_t_fail, "many_ok": many_ok, "probes": sol},
         "ms": {"ok100": steps_ok_100, "ok101": steps_ok_101, "worst_ratio_milli": (worst * 1000.0).min(1e9) as i64},
-        "fs": fs_fact,
+        "fs": fs_fact, "nodes": nodes_fact,
     })
 }
